@@ -487,7 +487,13 @@ func (c *Ctx) checkHeaderBlock() {
 			if cv, ok := v.(*ssa.Convert); ok {
 				v = cv.X
 			}
-			if sl, ok := v.(*ssa.Slice); ok && sl.High != nil && sl.Low == nil {
+			lowZero := false
+			if sl, ok := v.(*ssa.Slice); ok && sl.Low != nil {
+				if k, isK := constInt(sl.Low); isK && k == 0 {
+					lowZero = true
+				}
+			}
+			if sl, ok := v.(*ssa.Slice); ok && sl.High != nil && (sl.Low == nil || lowZero) {
 				if bo, ok := sl.High.(*ssa.BinOp); ok && bo.Op == token.ADD && bo.X == ssa.Value(idx) {
 					if n, ok := constInt(bo.Y); ok && n == 1 {
 						truncated = true
@@ -848,13 +854,20 @@ func (c *Ctx) nulBounded(v ssa.Value, depth int) bool {
 	switch x := v.(type) {
 	case *ssa.Slice:
 		if x.High != nil {
-			h := x.High
-			if bo, ok := h.(*ssa.BinOp); ok {
-				h = bo.X
+			cands := []ssa.Value{x.High}
+			if bo, ok := x.High.(*ssa.BinOp); ok {
+				// index of the NUL, plus or minus a constant, or start + (index
+				// of the NUL in the data from start on)
+				cands = []ssa.Value{bo.X}
+				if bo.Op == token.ADD {
+					cands = append(cands, bo.Y)
+				}
 			}
-			if call, ok := h.(*ssa.Call); ok && (strings.HasSuffix(calleeQ(&call.Call), ".IndexByte") || strings.HasSuffix(calleeQ(&call.Call), ".Index")) {
-				if sep, ok := c.sepByte(call.Call.Args[1]); ok && sep == 0 {
-					return true
+			for _, h := range cands {
+				if call, ok := c.resolve(h).(*ssa.Call); ok && (strings.HasSuffix(calleeQ(&call.Call), ".IndexByte") || strings.HasSuffix(calleeQ(&call.Call), ".Index")) {
+					if sep, ok := c.sepByte(call.Call.Args[1]); ok && sep == 0 {
+						return true
+					}
 				}
 			}
 		}
@@ -863,7 +876,14 @@ func (c *Ctx) nulBounded(v ssa.Value, depth int) bool {
 		return c.nulBounded(x.X, depth+1)
 	case *ssa.UnOp:
 		if ia, ok := x.X.(*ssa.IndexAddr); ok {
-			if call, ok := c.resolve(ia.X).(*ssa.Call); ok && strings.Contains(calleeQ(&call.Call), ".Split") {
+			base := c.resolve(ia.X)
+			for i := 0; i < 3; i++ {
+				// a sub-range of the pieces (`records[:last]`)
+				if sl, isSl := base.(*ssa.Slice); isSl {
+					base = c.resolve(sl.X)
+				}
+			}
+			if call, ok := base.(*ssa.Call); ok && strings.Contains(calleeQ(&call.Call), ".Split") {
 				if sep, ok := c.sepByte(call.Call.Args[1]); ok && sep == 0 {
 					return true
 				}
@@ -970,8 +990,10 @@ func (c *Ctx) checkKeyMatcher() {
 	})
 	t := checkTable(rows, []string{EMPTY, HP, LASTDOT, EQ, KEYDOT}, func(a map[string]bool) string {
 		switch {
+		case a[EMPTY] && !a[HP]:
+			return "*" // every key has the empty prefix
 		case a[EMPTY]:
-			return "(true,K)"
+			return "(true,K)|(true,K[len(P):])" // len(P) is 0 here
 		case !a[HP]:
 			return `(false,"")`
 		case a[LASTDOT]:
